@@ -323,6 +323,19 @@ func runRImpl(c RCaseR) (o rObs) {
 		o.Text, o.CErr = rule.ToCommandLine(b, false)
 		runtime.ReadMemStats(&ms1)
 		o.Out = renderBytesOrErr([]byte(o.Text), o.CErr)
+		// the same bytes as a window of a longer buffer (a rule cut out of a receive buffer: the next message lies behind
+		// it): the answer is a function of the bytes given, whatever lies beyond their end
+		{
+			big := make([]byte, len(b)+1200)
+			copy(big, b)
+			for i := len(b); i < len(big); i++ {
+				big[i] = "NEXT-MESSAGE-"[(i-len(b))%13]
+			}
+			t2, e2 := rule.ToCommandLine(big[:len(b):len(big)], false)
+			if out2 := renderBytesOrErr([]byte(t2), e2); out2 != o.Out {
+				o.Panic = "ToCommandLine answers differently when the same bytes are a window of a longer buffer: " + out2
+			}
+		}
 	case "struct":
 		o.Rule = parseSpec(c.Spec)
 		o.Env = envFor(o.Rule)
